@@ -388,6 +388,7 @@ class StmtMixin:
                     s.generic_visit(node)
                 visit_GeneratorExp = visit_ListComp
                 visit_DictComp = visit_ListComp
+                visit_SetComp = visit_ListComp
 
                 def visit_FunctionDef(s, node):
                     if node is fn:
@@ -695,6 +696,30 @@ class StmtMixin:
             s.assume(z3.Length(R) == it.n)
             s.assume(qforall([j], z3.Implies(rng, R[j] == vs[0]), patterns=[R[j]]))
             return ok(s, self.new_list(s, R))
+        return self.comp_common(n, st, [n.elt], build)
+
+    def e_SetComp(self, n, st):
+        """sets of strings only (the universal value sort models sets as String -> Bool)"""
+        def build(s, acc, sym):
+            if sym is None:
+                e = EMPTY_SET
+                for a in acc:
+                    if self.impossible(s, V.is_str(a[0])) is False:
+                        self.unsupported(s, 'set comprehension over non-string elements')
+                    s.assume(V.is_str(a[0]))
+                    e = z3.Store(e, V.s(a[0]), True)
+                return ok(s, self.new_set(s, e))
+            j, rng, keep, vs, it = sym
+            if keep is not None:
+                self.unsupported(keep, 'filtered set comprehension of symbolic length')
+            R = self.fresh('setc', z3.ArraySort(Str, z3.BoolSort()))
+            wit = z3.Function('setc!wit!%d' % next(self.n), Str, Int)
+            x = z3.String('setc!x!%d' % next(self.n))
+            elt = vs[0]
+            s.assume(qforall([j], z3.Implies(rng, z3.And(V.is_str(elt), z3.Select(R, V.s(elt))))))
+            s.assume(qforall([x], z3.Implies(z3.Select(R, x), z3.And(
+                z3.substitute(rng, (j, wit(x))), V.s(z3.substitute(elt, (j, wit(x)))) == x)), patterns=[z3.Select(R, x)]))
+            return ok(s, self.new_set(s, R))
         return self.comp_common(n, st, [n.elt], build)
 
     def e_GeneratorExp(self, n, st):
